@@ -37,8 +37,8 @@ PID = "G11"
 PKG = "yv-g11"
 
 TIERS = {
-    "quick": dict(gen="Gen_Prompt_quick.cfg", nrandom=4000, timeout=600),
-    "thorough": dict(gen="Gen_Prompt_thorough.cfg", nrandom=40000, timeout=2400),
+    "quick": dict(gen="Gen_Prompt_quick.cfg", nrandom=6000, timeout=600),
+    "thorough": dict(gen="Gen_Prompt_thorough.cfg", nrandom=60000, timeout=2400),
 }
 NEGATIVE = ["once", "ps1only", "noexcl", "rereport", "lateReport", "hdps1", "ps2eof", "noreset"]
 SHARD = 20000       # records per Trace_Prompt run
@@ -166,7 +166,9 @@ def run(tier):
         for i, line in enumerate(f):
             if i % 4973 == 1242 and len(samples) < 5:
                 e = json.loads(line)
-                if e["fam"] != "call":
+                if e["fam"] == "guard":
+                    samples.append({k: e[k] for k in ("fam", "inter", "tty", "ign", "k", "ret")})
+                elif e["fam"] != "call":
                     samples.append({k: e[k] for k in ("fam", "args", "src", "tin", "terr", "rc", "chunks", "pat", "out", "ev")})
                 else:
                     samples.append({k: e[k] for k in ("fam", "text", "first", "x", "nou", "pat", "post")})
@@ -175,7 +177,7 @@ def run(tier):
     _, out, _ = vlib.run_harness(PKG, ["replay", "--in", gen, "--out", mism, "--threads", "8"], timeout=T["timeout"])
     st1 = _summary(out)
     vlib.log(f"[p2->] replayed on the real shell in {time.time() - t1:.1f}s: {st1['shell_runs']} shell runs, "
-             f"{st1['calls']} calls of expand_posix / Prompter; {st1['mismatches']} mismatches")
+             f"{st1['calls']} calls of expand_posix / Prompter / EofGuard; {st1['mismatches']} mismatches")
     if st1["sessions"] != ngen:
         raise vlib.ToolError("harness did not replay every session")
     for m in vlib.read_ndjson(mism):
